@@ -248,7 +248,8 @@ def stat (t : Tree) (p : Path) : Except Err Entry :=
     | some e => .ok e
     | none => .error .notExist
 
-/-- `Dir.Rename` = root checks + rename(2). -/
+/-- `Dir.Rename` = root checks + `os.Rename` (which refuses every existing directory as the new
+name with EEXIST before calling rename(2)). -/
 def rename (t : Tree) (a b : Path) : Except Err Tree :=
   if a = [] ∨ b = [] then .error .invalid
   else match Mem.walk t a with
@@ -260,19 +261,15 @@ def rename (t : Tree) (a b : Path) : Except Err Tree :=
         match Mem.walk t b with
         | .error _ => .error .notExist
         | .ok _ =>
-          if a = b then .ok t
-          else if under a b then .error .invalid
-          else
-            let blocked : Option Err :=
-              match ea, get t b with
-              | _, none => none
-              | .file _, some (.file _) => none
-              | .file _, some .dir => some .isDir
-              | .dir, some (.file _) => some .notDir
-              | .dir, some .dir => if (kidsOf t b).isEmpty then none else some .notEmpty
-            match blocked with
-            | some e => .error e
-            | none => .ok (outside b (outside a t) ++ rebase a b (sub t a))
+          match get t b with
+          | some .dir => .error .exist
+          | some (.file _) =>
+            (match ea with
+             | .dir => .error .notDir
+             | .file _ => if a = b then .ok t else .ok (outside b (outside a t) ++ rebase a b (sub t a)))
+          | none =>
+            if under a b then .error .invalid
+            else .ok (outside b (outside a t) ++ rebase a b (sub t a))
 
 /-- open(2) as reached through `Dir.OpenFile`. -/
 def openFile (t : Tree) (p : Path) (f : Mem.Flags) : Except Err (Tree × Mem.OpenInfo) :=
@@ -495,8 +492,8 @@ def step (s : State) : Op → State × Res
     match s.handles[h]? with
     | none => (s, .badHandle)
     | some hd =>
-      if hd.isDir || hd.acc == 1 then (s, .err)
-      else if n = 0 then (s, .data [])
+      if n = 0 then (s, .data [])       -- a zero-length Read returns at once
+      else if hd.isDir || hd.acc == 1 then (s, .err)
       else
         let d := fileData s hd
         if hd.pos ≥ d.length then (s, .eof)
